@@ -9,6 +9,8 @@ import NeumannModel.Ckpt.Slab
     gnode label | gedge a b | gdeln i | gdele i
     vput k v1,v2,.. | vdel k | vbuild
     kput cls k x e|- | kdel cls k            (cls 0 plain key, 1 `_cache:`, 2 `emb:` with `_embedding`)
+    ackpt ts ord|- name                      (`create_auto`: the auto-checkpoint before a destructive statement)
+    ckall ord|-                              (`list(None)`: the FULL listing, newest first)
     ckpt ts ord|- name | rollback x ord|- | ckdel x ord|- | cklist | cktop n ord|- | resolve x ord|-
                                              (x: an id or a name, one code space: code < 1000 = the id
                                               string of checkpoint number `code`, else a proper name)
@@ -101,6 +103,10 @@ def ckptStep1 (d : Db) (line : String) : Db × String :=
       | some c, some k => doOp (.kdel c k) | _, _ => bad
   | ["ckpt", ts, ord, nm] => match ts.toNat?, parseNats ord, nm.toNat? with
       | some ts, some ord, some nm => doOp (.ckpt ts ord nm) | _, _, _ => bad
+  | ["ackpt", ts, ord, nm] => match ts.toNat?, parseNats ord, nm.toNat? with
+      | some ts, some ord, some nm => doOp (.ackpt ts ord nm) | _, _, _ => bad
+  | ["ckall", ord] => match parseNats ord with
+      | some ord => (d, showNats ((qCkptsAll d ord).map (·.1))) | none => bad
   | ["rollback", x, ord] => match x.toNat?, parseNats ord with
       | some x, some ord => doOp (.rollback x ord) | _, _ => bad
   | ["ckdel", x, ord] => match x.toNat?, parseNats ord with
